@@ -7,6 +7,7 @@ Open Scope N_scope.
 
 Section THM.
   Variable strop : str -> str.
+  Variable ek : str -> str.       (* eqkey of Namespace.__eq__; the current code is ek = same (corollaries below) *)
   Variable es : bool.
   Variable ext stem : str.
   Variable outdir : path.
@@ -19,24 +20,24 @@ Section THM.
   Hypothesis Hroot : one_root r types.
   Hypothesis Hne : types <> [].
 
-  Notation B := (build strop es ext outdir perm types).
-  Notation L := (linked strop es ext outdir perm types).
+  Notation B := (build strop ek es ext outdir perm types).
+  Notation L := (linked strop ek es ext outdir perm types).
 
   Lemma build_is : B = (L, [r]).
   Proof.
-    destruct (build_eq strop es ext outdir perm perm_perm types r Hnd Hroot Hne) as (k & Hk & E).
+    destruct (build_eq strop ek es ext outdir perm perm_perm types r Hnd Hroot Hne) as (k & Hk & E).
     rewrite E. f_equal.
     apply (root_reached strop es ext outdir types L r); [|assumption|assumption].
-    apply (linked_tree_ok strop es ext outdir perm perm_perm types r); assumption.
+    apply (linked_tree_ok strop ek es ext outdir perm perm_perm types r); assumption.
   Qed.
 
   Lemma ok : tree_ok strop es ext outdir types (fst B).
-  Proof. rewrite build_is. apply (linked_tree_ok strop es ext outdir perm perm_perm types r); assumption. Qed.
+  Proof. rewrite build_is. apply (linked_tree_ok strop ek es ext outdir perm perm_perm types r); assumption. Qed.
 
-  Lemma full : ns_fold strop types = false -> tree_full strop es ext outdir types (fst B).
+  Lemma full : ns_fold ek types = false -> tree_full strop es ext outdir types (fst B).
   Proof.
     intros H. rewrite build_is.
-    apply (linked_tree_full strop es ext outdir perm perm_perm types r); try assumption.
+    apply (linked_tree_full strop ek es ext outdir perm perm_perm types r); try assumption.
     apply ns_fold_false_inj; assumption.
   Qed.
 
@@ -58,7 +59,7 @@ Section THM.
   Qed.
 
   Theorem links_consistent_partial :
-    ns_fold strop types = false ->
+    ns_fold ek types = false ->
     forall k n, get (fst B) k = Some n ->
       n_parent n = parent_of k /\ NoDup (n_children n) /\
       forall c, In c (n_children n) <-> (In c (keys (fst B)) /\ parent_of c = Some k).
@@ -82,7 +83,7 @@ Section THM.
   Qed.
 
   Theorem types_each_once_partial :
-    ns_fold strop types = false ->
+    ns_fold ek types = false ->
     Permutation (get_all_types strop ext stem outdir cperm (fst B) (snd B))
                 (map (ns_item strop ext stem outdir) (keys (fst B)) ++ map (ty_item strop es ext outdir) types) /\
     Permutation (get_all_datatypes cperm (fst B) (snd B))
@@ -98,17 +99,80 @@ Section THM.
   Qed.
 
   Theorem lookup_total_partial :
-    ns_fold strop types = false ->
+    ns_fold ek types = false ->
     forall self t, In self (keys (fst B)) -> In t types ->
-      find_output_path strop cperm (fst B) self t = Some (out_path strop es ext outdir t).
+      find_output_path ek cperm (fst B) self t = Some (out_path strop es ext outdir t).
   Proof.
-    intros Hf. apply (lookup_total strop es ext outdir cperm cperm_perm types (fst B) r); try assumption.
+    intros Hf. apply (lookup_total strop es ext outdir cperm cperm_perm types (fst B) r ek); try assumption.
     - apply full; assumption.
     - apply ns_fold_false_inj; assumption.
   Qed.
 End THM.
 
-(* ---- the faithful model violates the full statements when two sibling namespaces fold ------------------ *)
+(* ---- the current code: Namespace.__eq__ compares the unstropped components (ek = same): NO exclusion ------------------ *)
+Lemma ns_fold_same types : ns_fold same types = false.
+Proof.
+  apply ns_inj_fold_false. intros k1 k2 _ _ H.
+  replace (map same k1) with k1 in H by (symmetry; apply map_id).
+  replace (map same k2) with k2 in H by (symmetry; apply map_id). exact H.
+Qed.
+
+Section NOW.
+  Variable strop : str -> str.
+  Variable es : bool.
+  Variable ext stem : str.
+  Variable outdir : path.
+  Variable perm cperm : list key -> list key.
+  Hypothesis perm_perm : forall l, Permutation (perm l) l.
+  Hypothesis cperm_perm : forall l, Permutation (cperm l) l.
+  Variable types : list ty.
+  Variable r : str.
+  Hypothesis Hnd : NoDup types.
+  Hypothesis Hroot : one_root r types.
+  Hypothesis Hne : types <> [].
+  Notation B := (build strop same es ext outdir perm types).
+
+  Theorem links_consistent :
+    forall k n, get (fst B) k = Some n ->
+      n_parent n = parent_of k /\ NoDup (n_children n) /\
+      forall c, In c (n_children n) <-> (In c (keys (fst B)) /\ parent_of c = Some k).
+  Proof.
+    apply (links_consistent_partial strop same es ext outdir perm perm_perm types r Hnd Hroot Hne (ns_fold_same types)).
+  Qed.
+
+  Theorem types_each_once :
+    Permutation (get_all_types strop ext stem outdir cperm (fst B) (snd B))
+                (map (ns_item strop ext stem outdir) (keys (fst B)) ++ map (ty_item strop es ext outdir) types) /\
+    Permutation (get_all_datatypes cperm (fst B) (snd B))
+                (map (fun t => (t, out_path strop es ext outdir t)) types) /\
+    Permutation (get_all_namespaces strop ext stem outdir cperm (fst B) (snd B))
+                (map (fun k => (k, ns_path strop ext stem outdir k)) (keys (fst B))).
+  Proof.
+    apply (types_each_once_partial strop same es ext stem outdir perm cperm perm_perm cperm_perm types r Hnd Hroot Hne
+             (ns_fold_same types)).
+  Qed.
+
+  Theorem lookup_total_now :
+    forall self t, In self (keys (fst B)) -> In t types ->
+      find_output_path same cperm (fst B) self t = Some (out_path strop es ext outdir t).
+  Proof.
+    apply (lookup_total_partial strop same es ext outdir perm cperm perm_perm cperm_perm types r Hnd Hroot Hne
+             (ns_fold_same types)).
+  Qed.
+End NOW.
+
+(* the type file lies in the output folder of its namespace's Namespace object (stropping enabled) *)
+Lemma removelast_app_one {A} (l : list A) x : removelast (l ++ [x]) = l.
+Proof. apply removelast_last. Qed.
+
+Theorem type_file_in_namespace_folder strop ext stem outdir t :
+  removelast (out_path strop true ext outdir t) = outdir ++ map strop (t_ns t) /\
+  removelast (ns_path strop ext stem outdir (t_ns t)) = outdir ++ map strop (t_ns t).
+Proof.
+  unfold out_path, make_path, ns_path, pstrop. rewrite !app_assoc, !removelast_last. split; reflexivity.
+Qed.
+
+(* ---- BEFORE fix f08a0a1 (ek = strop) the model lost a type when two sibling namespaces fold: F-NS-FOLD (fixed) ---------- *)
 Definition w_class : str := [99; 108; 97; 115; 115].                  (* "class" *)
 Definition w_strop (x : str) : str := if str_eqb x w_class then 95 :: w_class else x.   (* class -> _class *)
 Definition w_ns : str := [110; 115].                                   (* "ns" *)
@@ -131,8 +195,16 @@ Lemma w_fold : ns_fold w_strop [w_Q; w_R] = true.
 Proof. vm_compute. reflexivity. Qed.
 
 Lemma w_dropped :
-  let b := build w_strop true w_ext w_out w_id [w_Q; w_R] in
+  let b := build w_strop w_strop true w_ext w_out w_id [w_Q; w_R] in
   existsb (fun tp => ty_eqb (fst tp) w_R) (get_all_datatypes w_id (fst b) (snd b)) = false /\
   find_output_path w_strop w_id (fst b) [w_ns] w_R = None /\
   In [w_ns; 95 :: w_class] (keys (fst b)).
 Proof. vm_compute. split; [reflexivity | split; [reflexivity | right; left; reflexivity]]. Qed.
+
+(* the same input under the current code: both types are enumerated and found *)
+Lemma w_kept_now :
+  let b := build w_strop same true w_ext w_out w_id [w_Q; w_R] in
+  existsb (fun tp => ty_eqb (fst tp) w_R) (get_all_datatypes w_id (fst b) (snd b)) = true /\
+  existsb (fun tp => ty_eqb (fst tp) w_Q) (get_all_datatypes w_id (fst b) (snd b)) = true /\
+  find_output_path same w_id (fst b) [w_ns] w_R <> None.
+Proof. vm_compute. split; [reflexivity | split; [reflexivity | discriminate]]. Qed.
